@@ -11,24 +11,29 @@ the Impl model (`CV/Model/Huff.lean`):
 * `huff.decode.get_unchecked` — `self.nodes.get_unchecked(node_index - num_symbols)` in
   `decode_symbol`.
 
-The theorems say that no input reaches them.  The constructors are total functions of *every*
-weight list (empty, too long, overflowing sums: those panic, they do not index); the walks are
-stated for every tree a constructor can return, every symbol value and every bit source.
-(`EncoderHuffmanTree`/`DecoderHuffmanTree` have private fields and no other constructor, so
-"every tree a constructor can return" is every tree safe code can hold.)
+The theorems say that no input reaches them, for **every** weight type (`WeightOps`: any order,
+any addition): checked integers (sums that overflow panic before indexing), **wrapping**
+integers (`wrappingOps n`: a release build, where `prob0 + prob1` wraps silently — nothing here
+is "only correct because release wraps", and nothing becomes unsafe when it does), floats whose
+sums round or become infinite.  The constructors are total functions of every weight list
+(empty, too long); the walks are stated for every tree a constructor can return, every symbol
+value and every bit source.  (`EncoderHuffmanTree`/`DecoderHuffmanTree` have private fields and
+no other constructor, so "every tree a constructor can return" is every tree safe code can hold.)
 -/
 namespace CV.Huff.C20
 open CV CV.Huff
 
-/-- constructor sites: unreachable for every weight list and every weight type, including
-lists whose weight sum overflows -/
-theorem constructors_no_ub (wb : Option Nat) (ws : List Nat) (site : String) :
-    encTree wb ws ≠ .error (.ub site) ∧ decTree wb ws ≠ .error (.ub site) :=
-  ⟨encTree_no_ub wb ws site, decTree_no_ub wb ws site⟩
+variable {α : Type} (ops : WeightOps α)
+
+/-- constructor sites: unreachable for every weight list and every weight type -/
+theorem constructors_no_ub (ws : List α) (site : String) :
+    encTree ops ws ≠ .error (.ub site) ∧ decTree ops ws ≠ .error (.ub site) :=
+  ⟨encTree_no_ub ops ws site, decTree_no_ub ops ws site⟩
 
 /-- the same through `try_from_probabilities` / `from_float_probabilities` (NaN / `Err` items) -/
-theorem try_constructors_no_ub (wb : Option Nat) (ws : List (Option Nat)) (site : String) :
-    tryEncTree wb ws ≠ .error (.fault (.ub site)) ∧ tryDecTree wb ws ≠ .error (.fault (.ub site)) := by
+theorem try_constructors_no_ub (ws : List (Option α)) (site : String) :
+    tryEncTree ops ws ≠ .error (.fault (.ub site)) ∧
+      tryDecTree ops ws ≠ .error (.fault (.ub site)) := by
   constructor
   · simp only [tryEncTree]
     split
@@ -38,7 +43,7 @@ theorem try_constructors_no_ub (wb : Option Nat) (ws : List (Option Nat)) (site 
       · simp
       · next f hf =>
         intro h; injection h with h; injection h with h; subst h
-        exact encTree_no_ub wb v site hf
+        exact encTree_no_ub ops v site hf
   · simp only [tryDecTree]
     split
     · simp
@@ -47,54 +52,39 @@ theorem try_constructors_no_ub (wb : Option Nat) (ws : List (Option Nat)) (site 
       · simp
       · next f hf =>
         intro h; injection h with h; injection h with h; subst h
-        exact decTree_no_ub wb v site hf
+        exact decTree_no_ub ops v site hf
+
+variable {ops}
 
 /-- `encode_symbol_suffix` / `encode_symbol_prefix` on a constructed tree: for *every* symbol
 value the result is a codeword or `ImpossibleSymbol` — never a fault (no out-of-bounds index,
 and the unbounded `loop` terminates) -/
-theorem encode_no_fault {wb : Option Nat} {ws : List Nat} {en : List Nat}
-    (hen : encTree wb ws = .ok en) (hfit : WeightsFit wb ws) (s : Nat) (f : Fault) :
+theorem encode_no_fault {ws : List α} {en : List Nat} (hen : encTree ops ws = .ok en)
+    (s : Nat) (f : Fault) :
     encodeSuffix en s ≠ .error (.fault f) ∧ encodePrefix en s ≠ .error (.fault f) := by
-  have hadm : Admissible wb ws := by
-    refine ⟨?_, ?_, hfit⟩
-    · cases ws with
-      | nil => simp [encTree] at hen
-      | cons _ _ => simp
-    · by_cases h : ws.length ≤ usizeMax / 4
-      · exact h
-      · simp only [encTree, List.length_zipIdx] at hen
-        rw [if_pos (Or.inr (by omega))] at hen
-        cases hen
-  obtain ⟨en', dn, T, he, _, _, B⟩ := admissible_build hadm
-  rw [hen] at he; injection he with he; subst he
+  obtain ⟨dn, T, _, _, B⟩ := built_of_enc hen
   by_cases hs : s < ws.length
   · obtain ⟨p, hp⟩ := B.code_of_lt hs
     rw [B.suffix hp, B.prefix hp]; simp
   · rw [B.suffix_reject (by omega), B.prefix_reject (by omega)]; simp
 
 /-- `decode_symbol` on a constructed tree, for *every* bit source (arbitrary bits, truncated,
-failing): a symbol of the alphabet, `OutOfCompressedData`, or the source's error — never a fault -/
-theorem decode_no_fault {wb : Option Nat} {ws : List Nat} {dn : List (Nat × Nat)}
-    (hdn : decTree wb ws = .ok dn) (hfit : WeightsFit wb ws) (hmax : ws.length ≤ usizeMax / 4)
-    (src : List (Option Bool)) :
+failing): a symbol of the alphabet, `OutOfCompressedData`, or the source's error — never a
+fault.  (`ws.length ≤ usize::MAX / 4`: a `Vec` of more elements cannot exist.) -/
+theorem decode_no_fault {ws : List α} {dn : List (Nat × Nat)} (hdn : decTree ops ws = .ok dn)
+    (hmax : ws.length ≤ usizeMax / 4) (src : List (Option Bool)) :
     (∃ s rest, decode dn src = .ok (s, rest) ∧ s < ws.length) ∨
       decode dn src = .error .outOfData ∨ decode dn src = .error .backend := by
-  have hadm : Admissible wb ws := by
-    refine ⟨?_, hmax, hfit⟩
-    cases ws with
-    | nil => simp [decTree] at hdn
-    | cons _ _ => simp
-  obtain ⟨en, dn', T, _, hd, _, B⟩ := admissible_build hadm
-  rw [hdn] at hd; injection hd with hd; subst hd
+  obtain ⟨en, T, _, _, B⟩ := built_of_dec hdn hmax
   rcases B.decode_total src with ⟨s, p, rest, h1, h2, _, _⟩ | h | h
   · exact Or.inl ⟨s, rest, h1, h2⟩
   · exact Or.inr (Or.inl h)
   · exact Or.inr (Or.inr h)
 
 /-- non-vacuity -/
-example : decTree (some 32) [2, 2, 4, 1, 1] = .ok [(3, 4), (0, 1), (5, 2), (6, 7)] := by
-  rfl
-example : encTree (some 8) [200, 100] = .error (.overflow "huff.add") := by rfl
+example : decTree (checkedOps 32) [2, 2, 4, 1, 1] = .ok [(3, 4), (0, 1), (5, 2), (6, 7)] := by rfl
+example : encTree (checkedOps 8) [200, 100] = .error (.overflow "huff.add") := by rfl
+example : encTree (wrappingOps 8) [200, 100] = .ok [5, 4, 0] := by rfl
 example : decode [(3, 4), (0, 1), (5, 2), (6, 7)] [some true, some false] = .error .outOfData := by
   rfl
 
